@@ -92,6 +92,8 @@ def run_case(ctx, cost, labels, blank, tag):
         ctx.event("realistic_length")
         if len(labels) >= 33:
             ctx.event("more_than_32_labels")
+        if len(labels) >= 128:
+            ctx.event("more_than_255_trellis_states")
         if float(cost.min(axis=1).max()) <= 1.0:
             ctx.event("text_written_unevenly_along_the_line")
     small = C ** T <= 20000
@@ -192,6 +194,12 @@ def strat():
         big = draw(st.integers(0, 9)) == 0          # a line of realistic length
         T = draw(st.integers(60, 250)) if big else draw(st.integers(1, 10))
         C = draw(st.integers(3, 9)) if big else draw(st.integers(2, 5))
+        # one long line in four is a full text line over a real alphabet: more than 128 labels (more than 255 trellis states)
+        # and class ids beyond 127 / 255
+        very_big = big and draw(st.integers(0, 3)) == 0
+        if very_big:
+            T = draw(st.integers(300, 420))
+            C = draw(st.sampled_from([140, 300]))
         blank = draw(st.integers(0, C - 1))
         kind = draw(st.sampled_from(["float", "float", "int", "int01", "huge", "tiny"]))
         pinf = draw(st.sampled_from([0.0, 0.0, 0.15, 0.4]))
@@ -223,6 +231,8 @@ def strat():
         planted = big and draw(st.booleans())
         if big:
             L = draw(st.integers(20, max(21, T // 2)))
+        if very_big:
+            L = draw(st.integers(130, min(180, T // 2 - 5)))
         if planted:
             T = cost.shape[0]
             L = draw(st.integers(20, max(21, T // 4)))      # a short text on a long line
